@@ -14,23 +14,29 @@ def classify(case):
     # the in-window clauses of Timer.monitor_fail (CNext), re-evaluated here: all must hold
     if we < now or (ws <= last <= we) or we < ws or ws < (last // 86400) * 86400:
         return None
-    if not o["includes_start"]:
-        # Includes(window.Start) is false: keyed only for a window produced by a clock span whose START is 24:00
-        # (its last minute lies on the same wrong day, so that flag may be false too: same cause)
-        if o.get("from_span_starting_2400") and ws % 86400 == 0:
+    inc_start, inc_tail = o["includes_start"], o.get("includes_last_minute", True)
+    if inc_start and inc_tail:
+        return None
+    from2400 = bool(o.get("from_span_starting_2400"))
+    if from2400:
+        # the window was produced by a flattened clock span whose START is 24:00 (Next places it at 00:00 of the day
+        # after the matched day). Such a span never contributes to Includes (C16_span_2400_never_includes), so an instant
+        # of this window (its start, its last minute) is rejected unless another span happens to cover it.
+        if ws % 86400 == 0:
             return "start-clock-24:00"
         return None
-    if not o.get("includes_last_minute", True):
-        # start accepted, last minute rejected: keyed only when that minute lies on a later calendar day than the start
-        if o.get("last_minute_on_later_day") and not o.get("from_span_starting_2400"):
-            return "window-crossing-midnight-tail"
-        return None
+    if inc_start and not inc_tail and o.get("last_minute_on_later_day"):
+        # start accepted, last minute rejected, and that minute lies on a later calendar day than the start
+        return "window-crossing-midnight-tail"
     return None
 
 
 SPEC = dict(
     prop="C16",
     coq_targets=["props/C16.vo"],
+    gens=[dict(name="RefreshConsts", cmd=["go", "run", "-C", "translators", ".", "refreshconsts"],
+               what="maxPostponement, refreshRetryDelay, default timer of overlord/snapstate/autorefresh.go; both timeutil.Next call sites pass maxPostponement; "
+                    "Ensure resets nextRefresh when the timer string changed; lastRefreshSchedule assigned only there")],
     drivers=[
         dict(name="timer", kind="test", pkg="./timeutil", run="TestVerifC16",
              n=dict(quick=900, thorough=30000), timeout=dict(quick=300, thorough=1800),
@@ -40,6 +46,10 @@ SPEC = dict(
              n=dict(quick=700, thorough=30000), timeout=dict(quick=300, thorough=1800),
              ev=dict(requires=["V.lib.Bytes", "V.models.Timer", "V.models.TimerText"], case_type="TimerText.tcase",
                      mismatch="TimerText.tmismatch", monitor="TimerText.tmonitor_fail")),
+        dict(name="manager", kind="test", pkg="./overlord/snapstate", run="TestVerifC16Manager", env=dict(TZ="UTC"),
+             n=dict(quick=120, thorough=1500), timeout=dict(quick=300, thorough=1800),
+             ev=dict(requires=["V.lib.Bytes", "V.models.Timer", "V.models.TimerText", "V.models.AutoRefresh"], case_type="AutoRefresh.mcase",
+                     prelude="Open Scope Z_scope.", mismatch="AutoRefresh.mmismatch", monitor="AutoRefresh.mmonitor_fail")),
     ],
     classify=classify,
     rule=("timers generated from the documented grammar (1-2 event sets; weekday, numbered weekday, spans incl. wrapping and "
